@@ -83,7 +83,7 @@ fn client_options(c: &ClientSpec) -> ClientAssociationOptions<'static> {
         .calling_ae_title(c.calling.clone())
         .max_pdu_length(c.maxpdu)
         .strict(c.strict)
-        .read_timeout(Duration::from_secs(10));
+        .read_timeout(Duration::from_secs(60));
     if let Some(x) = &c.called {
         o = o.called_ae_title(x.clone());
     }
@@ -181,7 +181,7 @@ fn run_case(uni: &Universe, seed: u64, i: u64, srv_l: &TcpListener, prx_l: &TcpL
         let s2c_b = s2c.lock().unwrap();
         let steps = merge_steps(&script, &cli_steps, &srv_steps);
         format!(
-            "#{} assoc {} | {} | {} | {} | {} | {} | {} | {} | {}",
+            "#{} assoc tcp {} | {} | {} | {} | {} | {} | {} | {} | {}",
             i,
             client_tok(&cs),
             cfg_tok(&cfg),
@@ -194,6 +194,99 @@ fn run_case(uni: &Universe, seed: u64, i: u64, srv_l: &TcpListener, prx_l: &TcpL
             wire_tok(&split_pdus(&s2c_b))
         )
     })
+}
+
+/// the same association attempt without sockets: `create_a_associate_req`, the public codec,
+/// `process_a_association_rq`, the public codec, `process_a_association_resp`, and `encode_pdu`
+/// for the scripted single-PDU sends — all through `dicom_ul::verif_hooks`. Neither side's own
+/// maximum is part of the hooks' results: it is filled in from the options (`min(value, largest)`).
+fn run_case_hook(uni: &Universe, seed: u64, i: u64) -> String {
+    use dicom_ul::pdu::*;
+    use dicom_ul::verif_hooks as vh;
+    let mut r = Rng::for_case(seed, i);
+    let (cs, cfg, script) = gen_case(uni, &mut r);
+    let opts = client_options(&cs);
+    let head = format!("#{} assoc hook {} | {}", i, client_tok(&cs), cfg_tok(&cfg));
+    let (proposed, rq) = match vh::create_a_associate_req(&opts, cs.addr_title.as_deref()) {
+        Ok(x) => x,
+        Err(e) => return format!("{} | none | none | {} | err:closed | 0 | 0 | 0", head, err_tok(&e)),
+    };
+    let Some((rq_seen, rq_len)) = through_codec(&rq) else {
+        return format!("#{} skip unencodable", i);
+    };
+    let (reply, srv) = process_cfg_pdu(&cfg, rq_seen.clone());
+    let srv = srv.replacen(" - ", &format!(" {} ", cfg.maxpdu.min(MAXIMUM_PDU_SIZE)), 1);
+    let Some((reply_seen, reply_len)) = through_codec(&reply) else {
+        return format!("#{} skip unencodable-reply", i);
+    };
+    let cli = vh::process_a_association_resp(&opts, reply_seen.clone(), &proposed);
+    let cli_tok = match &cli {
+        Ok(n) => format!(
+            "ok {} {} {} {} {}",
+            n.peer_max_pdu_length,
+            cs.maxpdu.min(MAXIMUM_PDU_SIZE),
+            hexs(&n.peer_ae_title),
+            negotiated_tok(&n.presentation_contexts),
+            uvs_tok(&n.user_variables)
+        ),
+        Err(e) => err_tok(e).to_string(),
+    };
+    let mut c2s = vec![(1u8, (rq_len - 6) as u32)];
+    let mut s2c = vec![(reply_seen_type(&reply_seen), (reply_len - 6) as u32)];
+    let mut steps = vec![];
+    if let (Ok(n), true) = (&cli, srv.starts_with("ok ")) {
+        let srv_peer_max: u32 = srv.split(' ').nth(1).and_then(|x| x.parse().ok()).unwrap_or(0);
+        for st in &script {
+            if let Step::Pd(by, pdvs) = st {
+                let peer_max = if *by == Side::Requestor { n.peer_max_pdu_length } else { srv_peer_max };
+                let pdu = Pdu::PData {
+                    data: pdvs
+                        .iter()
+                        .enumerate()
+                        .map(|(k, len)| PDataValue { presentation_context_id: 1, value_type: PDataValueType::Data, is_last: k + 1 == pdvs.len(), data: vec![0x5a; *len as usize] })
+                        .collect(),
+                };
+                let mut buf = Vec::new();
+                let out = vh::encode_pdu(&mut buf, &pdu, peer_max + PDU_HEADER_SIZE);
+                let sizes = pdvs.iter().map(|x| x.to_string()).collect::<Vec<_>>().join(",");
+                let who = if *by == Side::Requestor { "c" } else { "s" };
+                match out {
+                    Ok(()) => {
+                        let rec = (4u8, (buf.len() - 6) as u32);
+                        if *by == Side::Requestor {
+                            c2s.push(rec)
+                        } else {
+                            s2c.push(rec)
+                        }
+                        steps.push(format!("pd/{}/{}/ok/pd,{},{}", who, sizes, pdvs.len(), pdvs.iter().sum::<u32>()));
+                    }
+                    Err(e) => steps.push(format!("pd/{}/{}/{}/-", who, sizes, err_tok(&e))),
+                }
+            }
+        }
+    }
+    format!(
+        "{} | {} | {} | {} | {} | {} {} | {} | {}",
+        head,
+        pdu_tok(&rq_seen),
+        pdu_tok(&reply_seen),
+        cli_tok,
+        srv,
+        steps.len(),
+        steps.join(" "),
+        wire_tok(&c2s),
+        wire_tok(&s2c)
+    )
+}
+
+fn reply_seen_type(p: &dicom_ul::Pdu) -> u8 {
+    match p {
+        dicom_ul::Pdu::AssociationAC(_) => 2,
+        dicom_ul::Pdu::AssociationRJ(_) => 3,
+        dicom_ul::Pdu::ReleaseRP => 6,
+        dicom_ul::Pdu::AbortRQ { .. } => 7,
+        _ => 0,
+    }
 }
 
 fn main() {
@@ -216,6 +309,7 @@ fn main() {
     let next = Arc::new(std::sync::atomic::AtomicUsize::new(0));
     let (tx, rx) = mpsc::sync_channel::<(usize, String)>(4096);
     let workers = if idx.len() < 8 { 1 } else { 8 };
+    let force_tcp = a.extra.iter().any(|x| x == "--tcp");
     for _ in 0..workers {
         let (uni, idx, next, tx, seed) = (uni.clone(), idx.clone(), next.clone(), tx.clone(), a.seed);
         std::thread::spawn(move || {
@@ -226,7 +320,13 @@ fn main() {
                 if k >= idx.len() {
                     break;
                 }
-                let line = run_case(&uni, seed, idx[k], &srv_l, &prx_l);
+                // one case in four runs over loopback TCP between the real peers, the others in-process
+                let i = idx[k];
+                let line = if i % 4 == 0 || force_tcp {
+                    run_case(&uni, seed, i, &srv_l, &prx_l)
+                } else {
+                    catch(std::panic::AssertUnwindSafe(|| run_case_hook(&uni, seed, i))).unwrap_or_else(|_| format!("#{} assoc hook panic", i))
+                };
                 if tx.send((k, line)).is_err() {
                     break;
                 }
